@@ -81,6 +81,8 @@ Fixpoint run_until' (fuel : nat) (q : N) (r : rt) (acc : list str) (last : optio
 Definition run_until (fuel : nat) (q : N) (r : rt) (acc : list str) : res (rt * list str) :=
   do x <- run_until' fuel q r acc None; Ok (fst x).
 
+Definition call_cap (q : N) : nat := if q <=? 64 then 3000%nat else 40%nat.
+
 Definition arg_of (call : str) : str := match call with _ :: _ :: r => r | _ => [] end.
 Definition num_of (call : str) : N := match call with _ :: r => match parse_udec r with Some n => n | None => 0 end | [] => 0 end.
 
@@ -92,10 +94,10 @@ Definition do_call (r : rt) (last : option N) (call : str) : res (rt * list str 
   if c0 =? 75 then                             (* K<q> : CONT, but only when the last run was stopped by ?BREAK *)
     match last with
     | Some 0 => do x <- rt_enter O r (s2l "CONT");
-                run_until' 3000 (match parse_udec rest with Some q => q | None => 5000 end) (fst x) [] None
+                (let q := match parse_udec rest with Some q => q | None => 5000 end in run_until' (call_cap q) q (fst x) [] None)
     | _ => Ok (r, [], last)
     end
-  else if c0 =? 82 then run_until' 3000 (num_of call) r [] None          (* R<n> : until blocking *)
+  else if c0 =? 82 then run_until' (call_cap (num_of call)) (num_of call) r [] None          (* R<n> : until blocking *)
   else if c0 =? 69 then keep (do x <- rt_enter O r (str_of_hex after_colon); Ok (fst x, []))   (* E:<hex> *)
   else if c0 =? 88 then keep (do x <- rt_execute O r (num_of call); Ok (fst x, [show_event (snd x)]))  (* X<n> *)
   else if c0 =? 65 then                        (* A<q>:<hex> : answer a pending INPUT, then run *)
@@ -104,7 +106,7 @@ Definition do_call (r : rt) (last : option N) (call : str) : res (rt * list str 
         match split_on 58 rest [] with
         | [q; h] =>
             do x <- rt_enter O r (str_of_hex h);
-            run_until' 3000 (match parse_udec q with Some n => n | None => 5000 end) (fst x) [] last
+            (let qq := match parse_udec q with Some n => n | None => 5000 end in run_until' (call_cap qq) qq (fst x) [] last)
         | _ => Ok (r, [s2l "?"], last)
         end
     | _ => Ok (r, [], last)
